@@ -41,6 +41,20 @@ func drawC09(t *rapid.T) c09Case {
 	arm := rapid.IntRange(0, 9).Draw(t, "arm")
 	hasSyntax := false
 	switch {
+	case arm == 9:
+		// D: plain well-formed grammars of the kinds the other checks compile in
+		// batches (there a grammar whose output does not build silently drops out;
+		// here it is a violation)
+		c.Arm = "D"
+		lo := gen.DefaultLexOpts()
+		var g *gr.Grammar
+		if rapid.Bool().Draw(t, "dLexOnly") {
+			g = gen.LexGrammar(lo).Draw(t, "dLex")
+		} else {
+			g = gen.Combined(lo, gen.SynOpts{ErrorAlts: rapid.Bool().Draw(t, "dErr")}).Draw(t, "dComb")
+		}
+		hasSyntax = len(g.Prods) > 0
+		c.Src = g.Source()
 	case arm <= 2:
 		c.Arm = "A"
 		g := gen.HostileGrammar().Draw(t, "hostile")
@@ -406,7 +420,7 @@ func runC09(c *check, replay string) int {
 	// tier compiles a bounded number of them, hostile spellings first
 	compileCap := tc.shards
 	byArm := map[string]int{}
-	armCap := map[string]int{"A": compileCap * 6 / 10, "C": compileCap * 3 / 10, "B": compileCap / 10}
+	armCap := map[string]int{"A": compileCap * 5 / 10, "C": compileCap * 2 / 10, "B": compileCap / 10, "D": compileCap * 2 / 10}
 	for _, r := range results {
 		keep := r.exit0 && r.problem == "" && byArm[r.c.Arm] < armCap[r.c.Arm]
 		if keep {
@@ -560,4 +574,4 @@ func sigOf(p string) string {
 	return ""
 }
 
-const c09Rule = "case = grammar source text + flags (-a -zip -no_lexer -debug_lexer -debug_parser -v subsets) + output directory (absent, out, x/y) + -p (absent/correct) + file name; three arms: A well-formed grammars with hostile spellings (string literals with quotes, backticks, backslashes, $, %, {{, */, non-ASCII, tabs; Unicode/inner-! names; valid-Go actions with raw strings, comparison operators, $ inside Go strings, comments, format verbs; multi-import headers), B pattern shapes aimed at the item-set worklists (nested nullable repetitions/options, deep groups, long alternations, regdef chains), C byte/word mutations of grammars without any << >>. Oracles: the child ends within a CPU-time limit (re-run once with the limit doubled); on status 0 every package the configuration calls for exists and no file is empty; `go build` of everything written succeeds. Failures are grouped and shrunk by delta debugging over the source text. The quick tier compiles a bounded number of the status-0 outputs (hostile spellings first). Non-trivial and distinct: distinct (source, flags, output option) with exit status 0 whose output was compiled, plus arm B cases (termination on nested nullable shapes) with exit status 0."
+const c09Rule = "case = grammar source text + flags (-a -zip -no_lexer -debug_lexer -debug_parser -v subsets) + output directory (absent, out, x/y) + -p (absent/correct) + file name; four arms: A well-formed grammars with hostile spellings (string literals with quotes, backticks, backslashes, $, %, {{, */, non-ASCII, tabs; Unicode/inner-! names; valid-Go actions with raw strings, comparison operators, $ inside Go strings, comments, format verbs; multi-import headers), B pattern shapes aimed at the item-set worklists (nested nullable repetitions/options, deep groups, long alternations, regdef chains), C byte/word mutations of grammars without any << >>, D plain well-formed lexical and combined grammars (Unicode edge characters incl. NUL in patterns). Oracles: the child ends within a CPU-time limit (re-run once with the limit doubled); on status 0 every package the configuration calls for exists and no file is empty; `go build` of everything written succeeds. Failures are grouped and shrunk by delta debugging over the source text. The quick tier compiles a bounded number of the status-0 outputs (hostile spellings first). Non-trivial and distinct: distinct (source, flags, output option) with exit status 0 whose output was compiled, plus arm B cases (termination on nested nullable shapes) with exit status 0."
